@@ -121,7 +121,7 @@ func (ts *threadState) run(ex *Exec) {
 			k := 0
 			if len(runnable) > 1 {
 				k = ex.choose(len(runnable))
-				ex.ndVars = append(ex.ndVars, ndVar{Kind: "choose", n: k})
+				ex.ndVars = append(ex.ndVars, ndVar{Kind: "sched", n: k})
 			}
 			pick = runnable[k]
 		}
